@@ -94,6 +94,7 @@ type c05CmdCase struct {
 	C        c05Case `json:"requested"`
 	UpperMix int     `json:"letter_case_seed"`
 	PayMode  int     `json:"payload_rendering"`
+	DupFlags bool    `json:"flag_names_repeated"`
 }
 
 func mixCase(s string, seed int) string {
@@ -129,6 +130,9 @@ func c05CmdArgs(cc c05CmdCase) []string {
 					names = append(names, c05FlagNames[i].name)
 				}
 			}
+			if cc.DupFlags && len(names) > 0 {
+				names = append(names, names[cc.UpperMix%len(names)])
+			}
 			args = []string{"tcp", "--flags", mixCase(strings.Join(names, ","), cc.UpperMix)}
 		}
 	default:
@@ -152,6 +156,13 @@ func c05CmdArgs(cc c05CmdCase) []string {
 		}{{2, "df"}, {1, "mf"}, {4, "evil"}} {
 			if c.IPFlags&n.bit != 0 {
 				fl = append(fl, n.name)
+			}
+		}
+		if cc.DupFlags && len(fl) > 0 {
+			// naming a flag twice still requests just that flag
+			fl = append(fl, fl[cc.UpperMix%len(fl)])
+			if cc.UpperMix%3 == 0 {
+				fl = append([]string{fl[len(fl)-1]}, fl...)
 			}
 		}
 		args = append(args, "--ipflags="+mixCase(strings.Join(fl, ","), cc.UpperMix))
@@ -199,9 +210,9 @@ func c05CmdCheck(cc c05CmdCase) *kit.Verdict {
 func TestC05Commands(t *testing.T) {
 	kit.Run(t, kit.Spec[c05CmdCase]{
 		Prop: "C05",
-		Rule: "the same requested fields as TestC05Fillers, given on the command line of full commands on the virtual wire: tcp syn/fin/null/xmas or --flags <names in drawn order and letter case>, udp/icmp with --ttl --ipflags --ipproto --iplen --payload (\\xHH, literal ASCII or octal rendering, incl. bytes >= 0x80) --type --code, arp; --srcip/--srcmac/--gwmac as requested, both link modes. Oracle: the one frame on the wire decodes (independent decoder, checksums recomputed) to exactly the requested fields. non-trivial: non-default option set; distinct by case",
+		Rule: "the same requested fields as TestC05Fillers, given on the command line of full commands on the virtual wire: tcp syn/fin/null/xmas or --flags <names in drawn order and letter case, sometimes a name twice>, udp/icmp with --ttl --ipflags --ipproto --iplen --payload (\\xHH, literal ASCII or octal rendering, incl. bytes >= 0x80) --type --code, arp; --srcip/--srcmac/--gwmac as requested, both link modes. Oracle: the one frame on the wire decodes (independent decoder, checksums recomputed) to exactly the requested fields. non-trivial: non-default option set; distinct by case",
 		Gen: func(t *rapid.T) c05CmdCase {
-			cc := c05CmdCase{C: c05Gen(t), UpperMix: rapid.IntRange(0, 65535).Draw(t, "lettercase"), PayMode: rapid.IntRange(0, 2).Draw(t, "paymode")}
+			cc := c05CmdCase{C: c05Gen(t), UpperMix: rapid.IntRange(0, 65535).Draw(t, "lettercase"), PayMode: rapid.IntRange(0, 2).Draw(t, "paymode"), DupFlags: rapid.IntRange(0, 3).Draw(t, "dupflags") == 0}
 			cc.C.Dst16 = false
 			cc.C.VPN = cc.C.Kind != "arp" && rapid.Bool().Draw(t, "vpn")
 			if cc.C.DstPort == 0 {
